@@ -458,3 +458,7 @@ impl<'source> CompiledTemplate<'source> {
         })
     }
 }
+
+#[cfg(kani)]
+#[path = "/verif/kani/template.rs"]
+mod verif_kani;
